@@ -15,6 +15,8 @@ C = {
          'As C02 with clocks: AtMostOneAlive, OnlyLatestAlive, NoResurrection, destruction annotation only on the display\'s delete_id, lifespan = destroy - create; alive flags, times, annotation and displayed lifespan of the real tool compared by TLC at every step.', '4 C03'),
  'C04': ('model_checking', 'TLA+ Session connections: TLC over all interleavings of two connections + replay + trace validation incl. the connection-id interface',
          'TLC checks isolation, solo-equivalence, naming order, announce-once, closed-once over all interleavings (<= 6 events) of two connections using the same ids; interleavings, random multi-connection logs and random open/message/close sequences on ConnectionManager are executed and validated step by step.', '4 C04'),
+ 'C05': ('model_checking', 'TLA+ Matcher!Sem: TLC checks the laws of the statement on the semantics, enumerates pattern x message selection tables for the real matcher, and validates real evaluations of generated trees on recorded sessions',
+         'Matcher.tla is the formalised documentation. TLC (P1) checks the listed laws for every pattern over the component pools; (P4) prints the selection of each of 5.7k patterns on a fixed 20-message session which the real parse().simplify().matches() must reproduce in up to 13 spellings; (P3) generated trees of depth 1-3 are evaluated by the real tool on random sessions and by TLC on its own resolution of those sessions.', '4 C05'),
  'C06': ('model_checking', 'TLA+ Session/Controller + Matcher semantics: TLC over filter/selection changes at every point + replay + trace validation',
          'The specification decides, with its own matcher semantics, which lines must appear; TLC explores all placements of filter and selection commands in bounded histories, and validates the real tool\'s output per input line on those and on random sessions.', '4 C06'),
  'C08': ('model_checking', 'TLA+ Session line pipeline: TLC over line streams with EOF at every point, both --supress settings + replay with the input file object as observation point',
